@@ -120,7 +120,7 @@ def do_extra(step):
                 from cyecca.lie.group_so3 import Axis, EulerType, SO3EulerLieGroup
                 shared = lie.SO3EulerB321.sequence
                 for et in (EulerType.space_fixed, EulerType.body_fixed):
-                    seqs = [shared] if name.endswith("shared_sequence") else [[Axis.z, Axis.y, Axis.x], [Axis.x, Axis.y, Axis.z], [Axis.z, Axis.x, Axis.z]]
+                    seqs = [shared] if name.endswith("shared_sequence") else [[Axis.x, Axis.y, Axis.z], [Axis.z, Axis.x, Axis.z], [Axis.z, Axis.y, Axis.x]]  # a convention other than 3-2-1 first
                     for seq in seqs:
                         Gv = SO3EulerLieGroup(euler_type=et, sequence=seq)
                         Xv = Gv.elem(ca.DM([0.3, -0.4, 0.5]))
